@@ -1347,7 +1347,9 @@ class Server:
             return True
 
         real_path, virtual_path = self.get_paths(connection, rest)
-        if await connection.path_io.is_dir(real_path.parent):
+        # parent of the virtual root is the virtual root, never outside base path
+        real_parent, _ = self.get_paths(connection, virtual_path.parent)
+        if await connection.path_io.is_dir(real_parent):
             coro = stor_worker(self, connection, rest)
             task = asyncio.create_task(coro)
             connection.extra_workers.add(task)
